@@ -240,6 +240,34 @@ Proof.
   intros R I f. split; eapply paths; try eassumption; reflexivity.
 Qed.
 
+(* the index variable of a two-variable for loop: the first of at least two iterator variables, whatever the
+   others are (a name or the placeholder `_`) *)
+Lemma for_index_lookup x second rest :
+  env_of (for_syms (Some x :: second :: rest)) x = Some (mkSym SVariable true RNone).
+Proof.
+  unfold for_syms, env_of. simpl. rewrite Nat.eqb_refl. simpl. unfold for_sym. rewrite Nat.eqb_refl. reflexivity.
+Qed.
+
+Lemma for_index_forms x second rest f :
+  allowed (env_of (for_syms (Some x :: second :: rest))) f (PIdent x) = false /\
+  allowed (env_of (for_syms (Some x :: second :: rest))) f (PParen (PIdent x)) = false.
+Proof.
+  eapply root_forms; [apply for_index_lookup|].
+  left. split; [right; reflexivity | reflexivity].
+Qed.
+
+(* controls: a single iterator variable, and the value variable after a placeholder, stay mutable *)
+Lemma for_controls x y :
+  env_of (for_syms [Some x]) x = Some (mkSym SVariable false RNone) /\
+  env_of (for_syms [None; Some x]) x = Some (mkSym SVariable false RNone) /\
+  (x <> y -> env_of (for_syms [Some y; Some x]) x = Some (mkSym SVariable false RNone)).
+Proof.
+  unfold for_syms, env_of. simpl. rewrite !Nat.eqb_refl. simpl. unfold for_sym.
+  repeat split. intro N.
+  destruct (Nat.eqb y x) eqn:Q; [apply Nat.eqb_eq in Q; congruence|].
+  simpl. rewrite Nat.eqb_sym, Q. reflexivity.
+Qed.
+
 (* the value receiver is a copy: mutation is accepted with a warning only (not an immutable binding) *)
 Lemma value_receiver_warns E x t :
   E x = Some (mkSym SReceiver false RNone) ->
